@@ -70,8 +70,14 @@ func c19Build(m int, k *int) *c02Schema {
 				}
 				return out, nil
 			case "if0":
+				if c19NilObjects {
+					return nil, nil
+				}
 				return &c19Node{Type: "O0"}, nil
 			case "o", "x", "y":
+				if c19NilObjects {
+					return nil, nil
+				}
 				return &c19Node{Type: "Q"}, nil
 			}
 			return "v", nil
@@ -261,6 +267,10 @@ func c19Term(text string) (string, *ast.Document, bool) {
 
 const c19Cap = 40000
 
+// c19NilObjects makes the object-typed fields resolve to nil, so that executing a family member
+// whose response would itself be exponential (x{..} y{..} chains) only plans
+var c19NilObjects bool
+
 // c19Watch runs f with a watchdog: an exponential blow-up is reported as the failing input
 // instead of hanging the check (the goroutine is abandoned).
 func c19Watch(f func()) (panicked string, timedOut bool) {
@@ -288,7 +298,7 @@ func genC19(tier string, seed uint64, n int, e *Emitter) {
 	cycles := []graphql.ValidationRuleFn{rules[9]}
 	one := 1
 	for _, fam := range c19Families() {
-		valPts, planPts := []string{}, []string{}
+		valPts, planPts, dynPts := []string{}, []string{}, []string{}
 		stop := false
 		for _, sz := range sizes {
 			if stop {
@@ -365,7 +375,39 @@ func genC19(tier string, seed uint64, n int, e *Emitter) {
 			e.Emit(Case{Group: "plan", Coq: fmt.Sprintf("(PlanCase %s %s %s)", sc.coq, term, c02NList(cp)),
 				Desc: map[string]interface{}{"family": fam.name, "n": sz, "document": c19Clip(text), "counters": cp}, NT: sz >= 8, Tags: tags, Fail: fail})
 			planPts = append(planPts, fmt.Sprintf("(%d, %s)", sz, c02NList(cp)))
-			for _, c := range append(cv, cp...) {
+			// the same member with a variable-driven directive on a sibling at the root: the root level is
+			// collected when the plan is executed, and everything below it is planned then
+			cd := []int{}
+			dtext := strings.Replace(text, "{", "query($v: Boolean = true) { zz: __typename @include(if: $v) ", 1)
+			if dterm, ddoc, dok := c19Term(dtext); dok {
+				graphql.VerifResetCounters()
+				var derr error
+				var dres *graphql.Result
+				c19NilObjects = true
+				dfail, dto := c19Watch(func() {
+					var pl *graphql.Plan
+					if pl, derr = graphql.PlanQuery(&sc.built.Schema, ddoc, ""); derr == nil {
+						dres = graphql.ExecutePlan(pl, graphql.ExecuteParams{Schema: sc.built.Schema, Args: map[string]interface{}{}})
+					}
+				})
+				cd = c19Counters()
+				if dto {
+					e.Emit(Case{Group: "plan-dynamic", Desc: map[string]interface{}{"family": fam.name, "n": sz, "document": c19Clip(dtext), "counters": cd},
+						Tags: tags, Fail: "watchdog: PlanQuery + ExecutePlan (object fields resolving to nil) did not finish within 20 s on a document of " + fmt.Sprint(len(dtext)) + " bytes"})
+					return
+				}
+				c19NilObjects = false
+				if dfail == "" && derr != nil {
+					dfail = "PlanQuery: " + derr.Error()
+				}
+				if dfail == "" && (dres == nil || len(dres.Errors) > 0) {
+					dfail = fmt.Sprint("ExecutePlan: ", dres)
+				}
+				e.Emit(Case{Group: "plan-dynamic", Coq: fmt.Sprintf("(DynPlanCase %s %s)", dterm, c02NList(cd)),
+					Desc: map[string]interface{}{"family": fam.name, "n": sz, "document": c19Clip(dtext), "counters": cd}, NT: sz >= 8, Tags: append([]string{"dynamic-root"}, tags...), Fail: dfail})
+				dynPts = append(dynPts, fmt.Sprintf("(%d, %s)", sz, c02NList(cd)))
+			}
+			for _, c := range append(append(cv, cp...), cd...) {
 				if c > c19Cap {
 					stop = true // larger members would take exponentially long on a broken build
 				}
@@ -373,6 +415,7 @@ func genC19(tier string, seed uint64, n int, e *Emitter) {
 		}
 		e.Emit(Case{Group: "growth", Coq: "(GrowthCase " + coqList(valPts) + ")", Desc: map[string]interface{}{"family": fam.name, "phase": "validate", "points": valPts}, NT: true, Tags: []string{"family-" + fam.name, "growth-validate"}})
 		e.Emit(Case{Group: "growth", Coq: "(GrowthCase " + coqList(planPts) + ")", Desc: map[string]interface{}{"family": fam.name, "phase": "plan", "points": planPts}, NT: true, Tags: []string{"family-" + fam.name, "growth-plan"}})
+		e.Emit(Case{Group: "growth", Coq: "(GrowthCase " + coqList(dynPts) + ")", Desc: map[string]interface{}{"family": fam.name, "phase": "plan at execute time (dynamic root level)", "points": dynPts}, NT: true, Tags: []string{"family-" + fam.name, "growth-plan-dynamic"}})
 	}
 	// executing a request plans only the runtime types actually encountered
 	pts := []string{}
